@@ -315,6 +315,35 @@ let run_tape = function
   | _ -> "ERR bad tape line"
 
 
+(* rawproto|mn|mx|ops  (e ; m:<d> ; g:<k> ; s:<k>:<v>) -> the log of BCRaw.r_run from the empty tape
+   (p=<probe hit> per move, v=<value> per get), the spec's values, and whether the operands are
+   inside the window *)
+let parse_rops (s : Stdlib.String.t) : rop list =
+  List.filter_map (fun x ->
+      if x = "" then None else
+        match split_on ':' x with
+        | ["e"] -> Some REnter
+        | ["m"; d] -> Some (RMov (zs d))
+        | ["g"; k] -> Some (RGet (zs k))
+        | ["s"; k; v] -> Some (RSet (zs k, zs v))
+        | _ -> failwith ("bad raw op " ^ x)) (split_on ';' s)
+
+let run_rawproto = function
+  | [mn; mx; ops] ->
+    let mn = zs mn and mx = zs mx in
+    let ops = parse_rops ops in
+    let okb = rops_ok mn mx ops Z0 in
+    let spec = r_spec ops (fun _ -> Z0) Z0 in
+    (match r_run rust_policy mn mx ops [] rtape0 with
+     | TOk (log, tf) ->
+       let strs = List.rev (List.rev_map (function RVal v -> "v=" ^ sz v | RProbe b -> if b then "p=1" else "p=0") log) in
+       String.concat " " strs ^ " | ok size=" ^ sz tf.t_size ^ " spec=" ^ String.concat "," (List.rev (List.rev_map sz spec))
+       ^ (if okb then " inwindow" else " OUTSIDE")
+     | RawOob i -> "rawoob " ^ sz i ^ (if okb then " inwindow" else " OUTSIDE")
+     | TooLarge -> "toolarge"
+     | AllocFail -> "allocfail")
+  | _ -> "ERR bad rawproto line"
+
 (* svec|N|ops -> one observation per op, then the ledger summary *)
 let rb = function "0" -> false | "1" -> true | x -> failwith ("bad reg " ^ x)
 let parse_sops (s : Stdlib.String.t) : sop list =
@@ -573,7 +602,7 @@ let run_bcmem = function
      | _ -> "notdone")
   | _ -> "ERR bad bcmem line"
 
-let handlers : (Stdlib.String.t * (Stdlib.String.t list -> Stdlib.String.t)) list ref = ref [ ("cell", run_cell); ("bf", run_bf); ("inplace", run_inplace); ("ir", run_ir); ("bc", run_bc); ("parse", run_parse); ("bfbig", run_bfbig); ("bcmem", run_bcmem); ("formsnf", run_formsnf); ("shapes", run_shapes); ("cli", run_cli); ("bcwf", run_bcwf); ("bfx", run_bfx); ("expr", run_expr); ("svec", run_svec); ("tape", run_tape); ("bfcycle", run_bfcycle); ("irbig", run_irbig) ]
+let handlers : (Stdlib.String.t * (Stdlib.String.t list -> Stdlib.String.t)) list ref = ref [ ("cell", run_cell); ("bf", run_bf); ("inplace", run_inplace); ("ir", run_ir); ("bc", run_bc); ("parse", run_parse); ("bfbig", run_bfbig); ("bcmem", run_bcmem); ("formsnf", run_formsnf); ("shapes", run_shapes); ("cli", run_cli); ("bcwf", run_bcwf); ("bfx", run_bfx); ("expr", run_expr); ("svec", run_svec); ("tape", run_tape); ("rawproto", run_rawproto); ("bfcycle", run_bfcycle); ("irbig", run_irbig) ]
 
 let () =
   (try
